@@ -54,6 +54,11 @@ def ref_open_files(w, table):
         elif kind == "delx":
             # '/tmp/fN (deleted)' does not exist but '/tmp/fN' does: psutil's documented heuristic reports '/tmp/fN'
             may.append((t[:-10], fd, pos, ref_mode(flags), flags))
+            may.append((t, fd, pos, ref_mode(flags), flags))
+        elif kind == "del":
+            # an unlinked regular file still held open: the statement does not say whether it is listed
+            may.append((t, fd, pos, ref_mode(flags), flags))
+            may.append((t[:-10], fd, pos, ref_mode(flags), flags))
     return must, may
 
 
